@@ -52,6 +52,8 @@ FIELD_RANGES = {}
 RET_RANGES = {}
 # function path -> MIR projection list p such that the function returns `(*arg0).p` (a plain field getter)
 GETTERS = {}
+# promoted constant path -> (start, end, inclusive, type) for `&(a..b)` / `&(a..=b)` with literal bounds
+PROMOTED_RANGES = {}
 # function path -> entry facts established at every call site (argsum.py); swapped in per Facts object by the census
 PARAM_INFO = {}
 
@@ -99,7 +101,7 @@ def fits(r, tr):
     return r[0] >= tr[0] and r[1] <= tr[1]
 
 
-NEG = {"Lt": "Ge", "Le": "Gt", "Gt": "Le", "Ge": "Lt", "Eq": "Ne", "Ne": "Eq"}
+NEG = {"Lt": "Ge", "Le": "Gt", "Gt": "Le", "Ge": "Lt", "Eq": "Ne", "Ne": "Eq", "InRange": "OutRange", "OutRange": "InRange"}
 SWAP = {"Lt": "Gt", "Le": "Ge", "Gt": "Lt", "Ge": "Le", "Eq": "Eq", "Ne": "Ne"}
 
 STD_THRESHOLDS = sorted({0, 1, -1, 2, 127, 128, 255, 256, 32767, 32768, 65535, 65536, (1 << 24) - 1, 1 << 24,
@@ -1429,6 +1431,22 @@ class Intervals:
     def refine(self, st, cmpop, oa, ob, truth, ta=None, tb=None):
         """returns False if the edge is infeasible"""
         op = cmpop if truth else NEG[cmpop]
+        if op in ("InRange", "OutRange"):
+            # oa: the tested operand; ob = (start operand, end operand, inclusive)
+            a = self.rng(st, oa)
+            lo_r, hi_r = self.rng(st, ob[0]), self.rng(st, ob[1])
+            if a is None or lo_r is None or hi_r is None:
+                return True
+            d = 0 if ob[2] else 1
+            if op == "InRange":
+                # start <= x <= end (x < end for a half-open range)
+                return self.narrow(st, oa, (lo_r[0], hi_r[1] - d))
+            # outside: decidable only when one side is excluded by what is already known about x
+            if a[0] >= lo_r[1]:
+                return self.narrow(st, oa, (hi_r[0] + 1 - d, INF))
+            if a[1] <= hi_r[0] - d:
+                return self.narrow(st, oa, (-INF, lo_r[1] - 1))
+            return True
         a, b = self.rng(st, oa), self.rng(st, ob)
         if a is None or b is None:
             return True
@@ -1686,7 +1704,10 @@ class Intervals:
                 payloads.append(((("d", 1), ("f", 0), ("f", 0)), (0, ISIZE_MAX - 1), (0, (1 << 64) - 1), []))
         new_vf = self._variant_facts(st, c, short, args_ops, atys, args, arg_terms, self.body.locals[l][0])
         carry = self._payload_carry(st, c, short, args_ops, atys, self.body.locals[l][0])
+        in_range = self._contains_fact(c, args_ops) if short == "contains" else None
         st.kill(l)
+        if in_range is not None:
+            st.cmp[l] = in_range
         if carry is not None:
             ts, dv = carry
             td = ("P", l, (("d", dv), ("f", 0)))
@@ -1722,6 +1743,57 @@ class Intervals:
             for o, other in rl:
                 if other is not None:
                     self.add_rel(st, t, o, other)
+
+    CONTAINS_RE = re.compile(r"^core::ops::range::(Range|RangeInclusive)::<Idx>::contains$")
+
+    def _contains_fact(self, c, args_ops):
+        """`(a..=b).contains(&x)` / `(a..b).contains(&x)` on integers: a comparison-like fact for the bool result"""
+        m = self.CONTAINS_RE.match(c)
+        if not m or len(args_ops) != 2:
+            return None
+        rl, xl = op_local(args_ops[0]), op_local(args_ops[1])
+        if rl is None or xl is None:
+            return None
+        rt, xt = self._ptr_target(rl), self._ptr_target(xl)
+        if xt is None or xt[1] or not xt[2]:
+            return None
+        if self.tr[xt[0]] is None:
+            return None          # not a plain integer (a newtype compares through its own PartialOrd)
+        sd = self.body.single_def(rt[0]) if (rt is not None and not rt[1] and rt[2] and not (0 < rt[0] <= self.body.argc)) else None
+        if sd is None or (not isinstance(sd[2], Term) and sd[2][0] == "use" and sd[2][1][0] == "k"):
+            # `&(0..=6)` with literal bounds is a promoted constant: the pointer local is `const &Range promoted[k]`
+            sdp = self.body.single_def(rl)
+            for _ in range(3):
+                if sdp is None or isinstance(sdp[2], Term):
+                    break
+                rvp = sdp[2]
+                if rvp[0] == "use" and rvp[1][0] == "k" and len(rvp[1]) > 3 and isinstance(rvp[1][3], str) and rvp[1][3] in PROMOTED_RANGES:
+                    a, b2, incl, ty = PROMOTED_RANGES[rvp[1][3]]
+                    return ("InRange", ["c", [xt[0], []]], (["k", ty, str(a)], ["k", ty, str(b2)], incl), xt[0], None)
+                nxt = None
+                if rvp[0] in ("ref", "raw") and rvp[2][1] == ["*"]:
+                    nxt = rvp[2][0]
+                elif rvp[0] == "use" and op_local(rvp[1]) is not None:
+                    nxt = op_local(rvp[1])
+                if nxt is None:
+                    break
+                sdp = self.body.single_def(nxt)
+            return None
+        rv = sd[2]
+        if isinstance(rv, Term):
+            if not rv.callee.endswith("RangeInclusive::<Idx>::new") or len(rv.args) != 2:
+                return None
+            a, b, incl = rv.args[0], rv.args[1], True
+        elif rv[0] == "agg" and rv[1][0] == "adt" and rv[1][1] in ("core::ops::range::Range", "core::ops::range::RangeInclusive") and len(rv[2]) == 2:
+            a, b, incl = rv[2][0], rv[2][1], rv[1][1].endswith("Inclusive")
+        else:
+            return None
+        for o in (a, b):
+            if o[0] != "k":
+                ol = op_local(o)
+                if ol is None or self.body.single_def(ol) is None or self.tr[ol] is None:
+                    return None
+        return ("InRange", ["c", [xt[0], []]], (a, b, incl), xt[0], None)
 
     GET_RE = re.compile(r"^core::slice::<impl \[T\]>::(get|get_mut)$")
     READ_AT_RE = re.compile(r"^read_fonts::font_data::FontData::<'a>::(read_at|read_be_at|read_ref_at)$")
